@@ -212,6 +212,14 @@ Theorem C06_tdmag_magnitude : forall (m2c : R -> R -> R) t0 x0 f0 g0 u zp d00 d0
        (Mag.num (- (e0 * (p00 * e0 + p01 * e1) + e1 * (p10 * e0 + p11 * e1)) / 2 - 1 / 2 * (2 * ln (2 * PI) + L))) cu [("inv", [cov])].
 Proof. intros. split; [apply tdmagmag_model_cov | apply tdmagmag_loglike]. Qed.
 Print Assumptions C06_tdmag_magnitude.
+(* the same class for a lens entered with its time delays only (two delays, NO magnitude): the source magnitude mu appears nowhere *)
+Theorem C06_tdmag_magnitude_without_magnitudes : forall (m2c : R -> R -> R) (t0 f0 u d00 d01 d10 d11 q00 q01 q10 q11 p00 p01 p10 p11 L t1 f1 ddt mu : R) rg cu,
+  let s0 := ddt * u * 1 in
+  yields (Gtd m2c p00 p01 p10 p11 L) 100 (CFun src_TDMagMagnitudeLikelihood_model_cov)
+    (Some (td_only_obj t0 f0 u d00 d01 d10 d11 q00 q01 q10 q11 t1 f1)) [Mag.num ddt; Mag.num mu] [] rg cu
+    (VTuple [Mag.vec [ddt * u * f0; ddt * u * f1];
+             Mag.mat [[d00 + s0 * (q00 * s0); d01 + s0 * (q10 * s0)]; [d10 + s0 * (q01 * s0); d11 + s0 * (q11 * s0)]]]) cu [].
+Proof. intros. apply (tdmagmag_no_magnitudes m2c t0 f0 u d00 d01 d10 d11 q00 q01 q10 q11 p00 p01 p10 p11 L t1 f1). Qed.
 
 (* ---- the two-dimensional (Ddt, Dd) KDE likelihood: the evaluation point ---- *)
 Require Import C06.DdtDdKde.
